@@ -337,6 +337,9 @@ func runC14(ctx *core.Ctx, out *core.Out) {
 		extra := ""
 		if len(cs.Subs) > 0 {
 			extra = "Sec-WebSocket-Protocol: " + cs.Subs[0] + "\r\n"
+		} else if cp := cs.Hdr["Sec-Websocket-Protocol"]; len(cp) > 0 {
+			// the caller offered subprotocols through its header map: the server picks the first
+			extra = "Sec-WebSocket-Protocol: " + cp[0] + "\r\n"
 		}
 		return []xport.Chunk{{Data: good101(req, extra)}}
 	})
@@ -455,6 +458,13 @@ func runC14(ctx *core.Ctx, out *core.Out) {
 	if nc1.Closed() {
 		fail("conn-closed-on-success", "the transport was closed although Dial succeeded", nil)
 		return
+	}
+	if cp := cs.Hdr["Sec-Websocket-Protocol"]; len(cs.Subs) == 0 && len(cp) > 0 {
+		out.Count("servers_selecting_a_subprotocol_offered_through_the_caller_header", 1)
+		if c1.Subprotocol() != cp[0] {
+			fail("subprotocol-adoption", fmt.Sprintf("Subprotocol() is %q, the server selected %q (offered through the caller's header map)", c1.Subprotocol(), cp[0]), nil)
+			return
+		}
 	}
 	if len(cs.Subs) > 0 && (c1.Subprotocol() != cs.Subs[0] || resp1 == nil) {
 		fail("subprotocol-adoption", fmt.Sprintf("Subprotocol() is %q, the server selected %q", c1.Subprotocol(), cs.Subs[0]), nil)
